@@ -213,7 +213,7 @@ def main(chk: Check):
     chk.lint(["C05"])
     chk.check_fingerprint(ANCHORS)
 
-    big = chk.thorough or chk.fingerprint_changed
+    big = chk.thorough
     versions = V12 + (VX if big else [])
     # ---- version-only atom texts (one per operator x version, revision spelling drawn; plus a
     # second spelling for a third of them)
